@@ -360,7 +360,7 @@ class Gen:
         if p["latencies"]:
             cfg.update(rnd.choice(p["latencies"]))
         if self.chance(p["p_txlimit"]):
-            cfg["transaction_limit"] = rnd.choice([0, 1, 2, 3, 5])
+            cfg["transaction_limit"] = rnd.choice([0, 1, 2, 3, 5, None])     # None: nothing to enforce, still counted
         for m in markets:
             m.pop("_centers", None)
         scn = {"id": sid, "cfg": cfg, "markets": markets, "strategies": strategies}
